@@ -4,6 +4,7 @@ pub mod adapters;
 pub mod alloc;
 pub mod battery;
 pub mod catalogue;
+pub mod cli;
 pub mod gen;
 pub mod json;
 pub mod model;
